@@ -274,7 +274,13 @@ func postInline(fw *formatWriter, source []byte, cursor *commonmark.Cursor) {
 			fw.s("(")
 			title := child.LinkTitle()
 			if dst := child.LinkDestination(); dst != nil {
-				fw.s(commonmark.NormalizeURI(dst.Text(source)))
+				if uri := commonmark.NormalizeURI(dst.Text(source)); uri != "" || title == nil {
+					fw.s(uri)
+				} else {
+					// A title can only follow a destination,
+					// so an empty one has to be spelled out.
+					fw.s("<>")
+				}
 				if title != nil {
 					fw.s(" ")
 				}
